@@ -90,6 +90,7 @@ def run_default(ctx: C.Ctx):
             pos = list(positions(doc))
             r = rng.random()
             junk_path = None
+            del_path, ins_path, ins_key = None, None, None
             if r < 0.7:
                 junk_path = rng.choice(pos)
                 bad = replace_at(doc, junk_path, copy.deepcopy(gen.junk(rng)))
@@ -103,16 +104,21 @@ def run_default(ctx: C.Ctx):
                         cur = cur[s_]
                     if isinstance(cur, dict):
                         v_ = cur.pop(p[-1], None)
+                        del_path = p
                         if rng.random() < 0.5:
+                            del_path = None
                             # a near-miss spelling of the deleted key (normalises to the field name, but is not a spelling any
                             # key case tries): exercises the "key transform" hint of MissingFields.message
                             cur[rng.choice([p[-1].upper(), p[-1].replace('_', '-').upper(), p[-1].replace('_', ' ')])] = v_
             else:
                 bad = copy.deepcopy(doc)
                 dpos = [p for p in pos if isinstance(_at(bad, p), dict)]
-                tgt = _at(bad, rng.choice(dpos)) if dpos else bad
+                tpath = rng.choice(dpos) if dpos else ()
+                tgt = _at(bad, tpath) if dpos else bad
                 if isinstance(tgt, dict):
-                    tgt[rng.choice(['zzz_unknown', 'Extra-Key', '', 'q'])] = 1
+                    ins_key = rng.choice(['zzz_unknown', 'Extra-Key', '', 'q'])
+                    tgt[ins_key] = 1
+                    ins_path = tuple(tpath)
             if not ctx.begin_case(i):
                 continue
             case = {'ty': ty, 'doc': repr(bad)[:600], 'engine': engine}
@@ -128,6 +134,26 @@ def run_default(ctx: C.Ctx):
                     elif getattr(e, 'class_name', None) is None and bad is not None:
                         # (a JSON null document is reported as MissingData without a class: the model has it so, too)
                         ctx.fail('err:no-class', case, f'{type(e).__name__} of a v1 load names no class (class_name is None): {str(e)[:200]}', detail=src)
+                # ---- independent locators for the two other kinds of damage (v1, keys are the field names): a deleted key of a required
+                # constructor field of the dataclass K at that position must come back as MissingFields naming K and the field; an
+                # unknown key added to the document of a dataclass K under the cascading RAISE policy as UnknownKeysError naming K —
+                # whatever K is nested in (lists, dicts, TypedDict / NamedTuple members, Optional)
+                if engine == 'v1' and isinstance(e, JSONWizardError):
+                    if del_path is not None:
+                        K = class_at(ty, del_path[:-1])
+                        if K is not None and required_field(K, del_path[-1]):
+                            if not (type(e).__name__ == 'MissingFields' and e.class_name == K['info']['name']
+                                    and del_path[-1] in (getattr(e, 'missing_fields', None) or [])):
+                                ctx.fail('err:missing-attribution', case, f'key {del_path[-1]!r} of required field of class {K["info"]["name"]} deleted at '
+                                         f'{del_path!r}: expected MissingFields naming that class and field, got {type(e).__name__} naming '
+                                         f'({e.class_name!r}, {getattr(e, "field_name", None)!r}, missing={getattr(e, "missing_fields", None)!r})', detail=src)
+                    if ins_path is not None and ins_key in ('zzz_unknown', 'Extra-Key') and meta.get('v1_on_unknown_key') == 'RAISE':
+                        K = class_at(ty, ins_path)
+                        if K is not None and not any(f.get('catch_all') for f in K['info']['fields']):
+                            if not (type(e).__name__ == 'UnknownKeysError' and e.class_name == K['info']['name']):
+                                ctx.fail('err:unknown-attribution', case, f'unknown key {ins_key!r} added to the document of class {K["info"]["name"]} at '
+                                         f'{ins_path!r} under RAISE: expected UnknownKeysError naming that class, got {type(e).__name__} naming '
+                                         f'{e.class_name!r}', detail=src)
                 exp = expected_attr(ty, junk_path) if junk_path else None
                 if exp is not None and isinstance(e, ParseError) and type(e).__name__ == 'ParseError':
                     if (e.class_name, e.field_name) != exp:
@@ -199,6 +225,54 @@ def expected_attr(ty, path):
                                           'timedelta', 'enum', 'literal', 'bytes', 'bytearray'):
         return None
     return (cls_name, last)
+
+
+def class_at(ty, path):
+    """the dataclass type node whose document sits at `path` of the root document (keys are field names; containers by
+    index / key; Optional looked through); None when the position is not a dataclass document or a Union is on the way"""
+    t = ty
+    for step in path:
+        while t['k'] == 'optional':
+            t = t['a'][0]
+        k = t['k']
+        if k == 'cls':
+            ftys = dict((n, ft) for n, ft in t['ftys'])
+            if not isinstance(step, str) or step not in ftys:
+                return None
+            t = ftys[step]
+        elif k in ('list', 'set', 'frozenset', 'deque', 'vtuple'):
+            if not isinstance(step, int):
+                return None
+            t = t['a'][0]
+        elif k == 'tuple':
+            if not isinstance(step, int) or step >= len(t.get('a', [])):
+                return None
+            t = t['a'][step]
+        elif k in ('dict', 'defaultdict', 'ordereddict'):
+            if not isinstance(step, str):
+                return None
+            t = t['a'][1]
+        elif k == 'typeddict':
+            fl = {n: ft for n, ft, _r in t['fields']}
+            if step not in fl:
+                return None
+            t = fl[step]
+        elif k == 'namedtuple':
+            if not isinstance(step, int) or step >= len(t['fields']):
+                return None
+            t = t['fields'][step][1]
+        else:
+            return None
+    while t['k'] == 'optional':
+        t = t['a'][0]
+    return t if t['k'] == 'cls' else None
+
+
+def required_field(K, name):
+    for f in K['info']['fields']:
+        if f['name'] == name:
+            return f.get('dflt') is None and f.get('init', True) and not f.get('catch_all') and not f.get('kw_only')
+    return False
 
 
 def _at(doc, path):
@@ -498,9 +572,12 @@ def run_v1_features(ctx: C.Ctx):
                         cur.pop(p_[-1], None)
             else:
                 dpos = [p for p in pos if isinstance(_at(bad, p), dict)]
-                tgt = _at(bad, rng.choice(dpos)) if dpos else bad
+                tpath = rng.choice(dpos) if dpos else ()
+                tgt = _at(bad, tpath) if dpos else bad
                 if isinstance(tgt, dict):
-                    tgt[rng.choice(['zzz_unknown', 'Extra-Key', '', 'q'])] = 1
+                    ins_key = rng.choice(['zzz_unknown', 'Extra-Key', '', 'q'])
+                    tgt[ins_key] = 1
+                    ins_path = tuple(tpath)
             if not ctx.begin_case(i):
                 continue
             case = {'ty': ty, 'doc': repr(bad)[:600], 'engine': 'v1'}
